@@ -94,6 +94,15 @@ class TNDyn(TNOps):
                 return False
         return True
 
+    def product_like(self, H):
+        """h_1 x ... x h_L + alpha 1 (whatever its MPO representation: a product operator shifted by the identity has the
+        same eigenvectors, hence the same invariant-subspace trap for the local eigensolver)."""
+        key = (H.uid, H.version)
+        c = getattr(self, '_prod_cache', None)
+        if c is None or c[0] != key:
+            self._prod_cache = c = (key, bool(dn.is_product_plus_identity(H.dense, self.d, self.L)))
+        return c[1]
+
     def spectrum(self, H):
         key = (H.uid, H.version)
         c = getattr(self, '_spec_cache', None)
@@ -312,18 +321,26 @@ class TNDyn(TNOps):
             self.check(abs(e1 - E[-1]) <= tolE, P, 'energy_consistent', lambda: f'<psi|H|psi>={e1!r} vs last reported {E[-1]!r} (sites={sites}, numiter={numiter}, sweeps={numsweeps})')
             self.check(E.max() <= e_start + tolE, P, 'below_start', lambda: f'max reported {E.max()!r} > start energy {e_start!r}')
             self.check(np.all(np.diff(E) <= tolE), P, 'monotone', lambda: f'energies {E.tolist()}')
-            product_op = all(b == 1 for b in bond_dims(H.ref, 'mpo'))
+            product_op = all(b == 1 for b in bond_dims(H.ref, 'mpo')) or self.product_like(H)
             if product_op and complete is True:
                 # for a product operator h_1 x ... x h_L the first local optimisation makes the state an exact product
                 # eigenvector at that site, which can be exactly orthogonal to the ground state: the sweep then stays in
                 # that invariant subspace for ever (observed: converges to the second eigenvalue). Not a theorem there.
                 self.skip('dmrg_exact_clause_not_judged_for_product_operator')
+                self.probe('product_plus_identity_operator' if not all(b == 1 for b in bond_dims(H.ref, 'mpo')) else 'product_operator')
             elif complete is True and numsweeps >= 2 and locdim <= 32 and numiter >= 2 * locdim:
                 gs = evecs[:, np.abs(evals - lam0) <= 1e-9 * max(1.0, nH)]
                 ov = float(np.linalg.norm(gs.conj().T @ v0[idx]))
-                if ov >= 1e-3:
+                resid = float(np.linalg.norm(M @ v1 - e1 * v1))
+                if ov >= 1e-3 and resid <= 1e-10 * nH and abs(E[-1] - lam0) > 1e-8 * max(1.0, nH):
+                    # The sweep sits on an exact excited eigenvector: a local optimisation has produced a state exactly
+                    # orthogonal to the ground space (product operators, operators with a decoupled basis state, ...), and a
+                    # Krylov space started from an exact eigenvector never leaves it.  Inherent to the local method, not a
+                    # theorem of C10 there (DESIGN 11.3); the local eigensolver itself is judged by the monitors (mon_eigh).
+                    self.skip('dmrg_trapped_on_exact_excited_eigenvector')
+                elif ov >= 1e-3:
                     self.check(abs(E[-1] - lam0) <= 1e-8 * max(1.0, nH), P, 'exact_ground_state',
-                               lambda: f'complete manifold: E={E[-1]!r} vs exact {lam0!r} (overlap {ov:.2e}, locdim {locdim}, numiter {numiter})')
+                               lambda: f'complete manifold: E={E[-1]!r} vs exact {lam0!r} (overlap {ov:.2e}, locdim {locdim}, numiter {numiter}, residual {resid:.2e})')
                     self.probe('dmrg_exact_judged')
                 else:
                     self.skip('dmrg_start_orthogonal_to_ground_space')
@@ -577,13 +594,15 @@ class TNDyn(TNOps):
         self.env.in_monitor += 1
         try:
             prep = self._mon_prep(Afunc, v0, numiter)
-            if prep is not None and prep[1] != 'grey':
+            if prep is not None and (prep[1] != 'grey' or ko.full_space_judgeable(prep[0], v0, numiter, prep[3])):
                 A, cls, K, normA, Q = prep
                 kret = self.last_lanczos[0] if self.last_lanczos else None
                 fails = ko.check_eigh_krylov(A, v0, numiter, numeig, out, cls, K, normA, Q, kret=kret)
                 self.judged[('C15', 'eigh_krylov')] += 1
                 for clause, detail in fails:
-                    self.viol('C15', clause, f'n={len(v0)} m={numiter} class={cls}: {detail}')
+                    # C10 rests on the local eigensolver returning the lowest reachable Ritz pair, not above the Rayleigh quotient
+                    props = ['C15', 'C10'] if clause in ('ritz_exact', 'ritz_upper', 'ritz_exact_full_space') else 'C15'
+                    self.viol(props, clause, f'n={len(v0)} m={numiter} class={cls}: {detail}')
         finally:
             self.env.in_monitor -= 1
             self._dense_cache = None
